@@ -516,6 +516,21 @@ var c05Chains = []struct{ pre, chained, asis, plain string }{
 	{"c := 9\nfunc f() {\nreturn func (a, b=c) {\nreturn [a, b]\n}\n}", "x.mark(f()(1))\nx.mark(f()(1, 2))", "x.mark(f())\nx.mark(f())", "let g := f()\nx.mark(g(1))\nlet g := f()\nx.mark(g(1, 2))"},
 	{"o := 0\nfunc f(a) {\nreturn func (b) {\nreturn func (c) {\nreturn [a, b, c]\n}\n}\n}", "x.mark(f(1)(2)(3))\no := f(4)(5)\nx.mark(o(6))", "x.mark(f(1))\no := f(4)\nx.mark(o(6))", "let g := f(1)\nlet c := g(2)\nx.mark(c(3))\nlet g := f(4)\no := g(5)\nx.mark(o(6))"},
 	{"a := {\"k\": 1, \"m\": func () {\nreturn this\n}, \"n\": func (b) {\nthis.k := b\nreturn this.k\n}}\no := new(a)", "x.mark(o.m().n(3))\nx.mark(o.k)", "", "let c := o.m()\nx.mark(c.n(3))\nx.mark(o.k)"},
+	// the ARGUMENTS of a call that follows a call result are evaluated in the parentless funcresult scope: every
+	// variable in them reads null (literals work)
+	{"a := 5\no := {\"m\": func () {\nreturn {\"n\": func (b, c=1) {\nreturn [b, c]\n}}\n}}", "x.mark(o.m().n(a))\nx.mark(o.m().n(a, a))", "if true {\nlet c := o.m()\nx.mark(c.n(null))\nlet c := o.m()\nx.mark(c.n(null, null))\n}", "let c := o.m()\nx.mark(c.n(a))\nlet c := o.m()\nx.mark(c.n(a, a))"},
+	{"o := {\"m\": func () {\nreturn {\"n\": func (b) {\nreturn [b]\n}}\n}}", "func f(c) {\nreturn o.m().n(c)\n}\nx.mark(f(7))", "func f(c) {\nlet a := o.m()\nreturn a.n(null)\n}\nx.mark(f(7))", "func f(c) {\nlet a := o.m()\nreturn a.n(c)\n}\nx.mark(f(7))"},
+}
+
+// distinct blocks share ONE scope when their (node kind, line, pos) coincide — known finding
+// block-scope-shared-by-position: the segments of one interpolating literal and separately parsed sources (a
+// program and its probes, console lines) all start at Line 1 Pos 1. {program, probe} as they are / with the leaked
+// name replaced by what a block-local name is outside its block (undefined = null)
+var c05BlockShare = []struct{ prog, probe, specProg, specProbe string }{
+	{"c := '{{if true { let a := 1 } }} {{if true { x.mark(a) } }}'\nx.mark(c)", "c", "c := '{{if true { let a := 1 } }} {{if true { x.mark(null) } }}'\nx.mark(c)", "c"},
+	{"if true {\nlet a := 1\n}", "if true {\nx.mark(a)\n}", "if true {\nlet a := 1\n}", "if true {\nx.mark(null)\n}"},
+	{"for b in [1] {\nlet a := 2\n}\nx.mark(a)", "for b in [1] {\nx.mark(a)\n}", "for b in [1] {\nlet a := 2\n}\nx.mark(a)", "for b in [1] {\nx.mark(null)\n}"},
+	{"try {\nlet a := 3\n} finally {\nlet b := 4\n}", "try {\nx.mark(a)\n} finally {\nx.mark(b)\n}", "try {\nlet a := 3\n} finally {\nlet b := 4\n}", "try {\nx.mark(null)\n} finally {\nx.mark(null)\n}"},
 }
 
 // ---------------------------------------------------------------- random programs
@@ -843,7 +858,39 @@ func init() {
 					}
 					for _, cx := range c05CallCtx {
 						prog := "a := 1\nb := 2\nc := 3\no := {\"m\": func (a) {\nx.mark(6, a)\nreturn [a]\n}}\nfunc h(a) {\nx.mark(9, a)\nreturn [a]\n}\nfunc f(" + ps.params + ") {\nreturn [a, b, c]\n}\n" + cx.pre + "x.mark(f(" + strings.Join(args, ", ") + "))" + cx.post
-						emit("exhaustive parameters x defaults x argument count x call context", prog, "[a, b, c]")
+						// what the property demands of defaults (lexical: declaration scope + earlier parameters): the same call
+						// with every missing argument computed by a top-level helper d<j>(earlier parameters) — known finding
+						// defaults-in-caller-scope where the code as it is (defaults evaluated in the CALLER's scope) differs
+						var names, helpers, lets, ts []string
+						for j, pd := range strings.Split(ps.params, ", ") {
+							if pd == "" {
+								continue
+							}
+							nmDef := strings.SplitN(pd, "=", 2)
+							t := fmt.Sprintf("t%d", j+1)
+							switch {
+							case j < k:
+								lets = append(lets, "let "+t+" := "+args[j])
+							case len(nmDef) == 2:
+								helpers = append(helpers, fmt.Sprintf("func d%d(%s) {\nreturn %s\n}\n", j+1, strings.Join(names, ", "), nmDef[1]))
+								lets = append(lets, fmt.Sprintf("let %s := d%d(%s)", t, j+1, strings.Join(ts, ", ")))
+							default:
+								lets = append(lets, "let "+t+" := null")
+							}
+							names = append(names, nmDef[0])
+							ts = append(ts, t)
+						}
+						callArgs := append([]string{}, ts...)
+						if k > len(ts) {
+							callArgs = append(callArgs, args[len(ts):]...)
+						}
+						specProg := strings.Replace(prog, "func f(", strings.Join(helpers, "")+"func f(", 1)
+						specProg = strings.Replace(specProg, "x.mark(f("+strings.Join(args, ", ")+"))",
+							"if true {\n"+strings.Join(lets, "\n")+"\nx.mark(f("+strings.Join(callArgs, ", ")+"))\n}", 1)
+						g.Count("exhaustive parameters x defaults x argument count x call context")
+						lz.Emit(func() string {
+							return evPayload(prog) + c05Alt + evPayload(specProg) + c05Alt + "#defaults-in-caller-scope" + c05Sep + evPayload("[a, b, c]")
+						})
 					}
 				}
 			}
@@ -917,6 +964,15 @@ func init() {
 				for _, in := range c05InnerDecl {
 					emit("exhaustive outer context x inner declaration (nested this/super/params)", fmt.Sprintf(oc.src, in.src), "o", "a", "[b, c, g]", "f")
 				}
+			}
+			// (6d) distinct blocks with coinciding positions (known finding block-scope-shared-by-position)
+			for _, bs := range c05BlockShare {
+				bs := bs
+				g.Count("directed blocks sharing a scope by position (known finding; spec = block-local names stay local)")
+				lz.Emit(func() string {
+					return evPayload(bs.prog) + c05Alt + evPayload(bs.specProg) + c05Alt + "#block-scope-shared-by-position" + c05Sep +
+						evPayload(bs.probe) + c05Alt + evPayload(bs.specProbe) + c05Alt + "#block-scope-shared-by-position" + c05Sep + evPayload("a")
+				})
 			}
 			// (6c) calls of a call result: chained form for the real code, let-desugaring for the model
 			for _, ch := range c05Chains {
